@@ -159,6 +159,7 @@ func runC03(w *mon.W) {
 		s := chain.FullConformant(r, n, 5)
 		var paths []gen.Path
 		gen.Paths(s.Args, nil, &paths, 3)
+		paths = append(paths, gen.RelPaths(r, s.Args, paths, 6)...)
 		// distribution pattern
 		switch it % 6 {
 		case 0: // only the root link has a policy
@@ -542,6 +543,7 @@ func c03Scale(w *mon.W) {
 		s.Args = gen.ArgsMap(r)
 		var paths []gen.Path
 		gen.Paths(s.Args, nil, &paths, 3)
+		paths = append(paths, gen.RelPaths(r, s.Args, paths, 6)...)
 		if len(paths) == 0 {
 			continue
 		}
